@@ -94,7 +94,12 @@ pub fn observe(bytes: &[u8], cfg: &ReaderCfg) -> Observed {
                 }
             }
             Ok(Event::CData(e)) => {
-                let ok = std::str::from_utf8(&e.into_inner()).is_ok();
+                let raw = e.into_inner();
+                let ok = std::str::from_utf8(&raw).is_ok();
+                // an empty (or whitespace-only) CDATA section is a node but carries no data
+                if ok && raw.iter().all(|b| b.is_ascii_whitespace()) {
+                    ws_text.push(events.len());
+                }
                 events.push(plain("CData", if ok { "none" } else { "utf8" }));
                 if !ok {
                     break;
